@@ -616,6 +616,7 @@ pub fn execute(plan: &Plan, trace: bool) -> Exec {
     }
     ex.probe("loop_iters", out.loop_iters);
     ex.probe("torn_read_futures", out.torn_reads);
+    ex.fault("short_read_cap_runs", (plan.read_cap > 0) as u64);
     if !out.panics.is_empty() {
         ex.violation("C01/panic", out.panics.join(" | "));
         return ex;
